@@ -9,13 +9,15 @@
                               ["error setting field V: " if it is in effect for the converter] "boom".              *)
 EXTENDS Settings
 Placements3 == {"absent", "yes", "no"}
-WProgs == {[pc |-> a, p1 |-> b, p2 |-> c] : a \in Placements3, b \in Placements3, c \in Placements3}
+\* kind "helper": as described; kind "direct": one method M1(S3) (T3, error) converting K string -> K int directly (no helper)
+WProgs == {[kind |-> "helper", pc |-> a, p1 |-> b, p2 |-> c] : a \in Placements3, b \in Placements3, c \in Placements3}
+            \cup {[kind |-> "direct", pc |-> a, p1 |-> b, p2 |-> "absent"] : a \in Placements3, b \in Placements3}
 LinesOf(pl) == IF pl = "absent" THEN <<>> ELSE <<[key |-> "wrapErrors", val |-> pl]>>
 EffConvW(w) == Effective(<<>>, LinesOf(w.pc), <<>>, "wrapErrors")
 EffMethW(w, pl) == Effective(<<>>, LinesOf(w.pc), LinesOf(pl), "wrapErrors")
 Chain(w, pl, field) == (IF EffMethW(w, pl) THEN <<field>> ELSE <<>>) \o (IF EffConvW(w) THEN <<"V">> ELSE <<>>)
-ExpectM1(w) == Chain(w, w.p1, "I")
-ExpectM2(w) == Chain(w, w.p2, "J")
+ExpectM1(w) == IF w.kind = "direct" THEN (IF EffMethW(w, w.p1) THEN <<"K">> ELSE <<>>) ELSE Chain(w, w.p1, "I")
+ExpectM2(w) == IF w.kind = "direct" THEN <<>> ELSE Chain(w, w.p2, "J")
 \* C18: fmt is imported exactly when some wrap is emitted
-NeedsFmt(w) == EffConvW(w) \/ EffMethW(w, w.p1) \/ EffMethW(w, w.p2)
+NeedsFmt(w) == IF w.kind = "direct" THEN EffMethW(w, w.p1) ELSE EffConvW(w) \/ EffMethW(w, w.p1) \/ EffMethW(w, w.p2)
 =============================================================================
